@@ -396,6 +396,26 @@ Section Reply.
   Definition accepted (g : gw) (l : pstr) (m : msg) : Prop :=
     decode l = Some m /\ gvalidate orc g m = true.
 
+  (* the handler selected for an accepted message keeps the C01 invariant and the configuration *)
+  Lemma dispatch_inv g m h g1 rep : cfgv v g -> Inv orc g -> wire_ok (m_payload m) = true ->
+    0 <= m_type m <= 4 -> type_handler (tab_of v) (m_type m) = Some h ->
+    run_handler orc clock h g m = Ok (g1, rep) -> Inv orc g1 /\ g_cf g1 = g_cf g.
+  Proof.
+    intros C I W RT TH RH.
+    destruct (k_type_handlers v) as (T0 & T1 & T2 & T3 & T4).
+    pose proof (facts_of_cfg g (cfgv_cfg v g C)) as F.
+    assert (HR : hres_ok orc g (run_handler orc clock h g m)).
+    { assert (E : m_type m = 0 \/ m_type m = 1 \/ m_type m = 2 \/ m_type m = 3 \/ m_type m = 4) by lia.
+      destruct E as [E|[E|[E|[E|E]]]]; rewrite E in TH; rewrite ?T0, ?T1, ?T2, ?T3, ?T4 in TH;
+        inversion TH; subst h; unfold run_handler.
+      - apply handle_presentation_ok; assumption.
+      - apply handle_set_ok; assumption.
+      - apply handle_req_ok; assumption.
+      - apply handle_internal_ok; assumption.
+      - apply handle_stream_ok; assumption. }
+    destruct HR as (gy & ry & EY & IY & CY). rewrite RH in EY. inversion EY; subst. split; assumption.
+  Qed.
+
   Theorem reply_table g l m g' r : cfgv v g -> Inv orc g -> accepted g l m ->
     wakes_up v (vw g) m = false ->
     logic orc clock g l = Ok (g', r) ->
@@ -431,20 +451,7 @@ Section Reply.
     destruct (HH g1 rep (ex_intro _ h (conj eq_refl RH))) as (N & HN & EN).
     destruct (route_opt g1 rep) as [g2 routed] eqn:RO. intro H. inversion H; subst g' r. clear H.
     destruct HN as (C1 & S1 & O1 & Q1).
-    assert (I1 : Inv orc g1).
-    { destruct (logic_total orc clock g l (cfgv_cfg v g C) I) as (gx & rx & EL & _).
-      clear EL. (* the invariant of the intermediate state comes from the handler lemmas of GwInv *)
-      pose proof (facts_of_cfg g (cfgv_cfg v g C)) as F.
-      assert (HR : hres_ok orc g (run_handler orc clock h g m)).
-      { assert (E : m_type m = 0 \/ m_type m = 1 \/ m_type m = 2 \/ m_type m = 3 \/ m_type m = 4) by lia.
-        destruct E as [E|[E|[E|[E|E]]]]; rewrite E in TH; rewrite ?T0, ?T1, ?T2, ?T3, ?T4 in TH;
-          inversion TH; subst h; unfold run_handler.
-        - apply handle_presentation_ok; assumption.
-        - apply handle_set_ok; assumption.
-        - apply handle_req_ok; assumption.
-        - apply handle_internal_ok; assumption.
-        - apply handle_stream_ok; assumption. }
-      destruct HR as (gy & ry & EY & IY & _). rewrite RH in EY. inversion EY; subst. exact IY. }
+    assert (I1 : Inv orc g1) by (apply (dispatch_inv g m h g1 rep C I W RT TH RH)).
     destruct (route_opt_eff orc v g1 rep g2 routed (cfgv_ext v g g1 C1 C) I1 RO) as (Hd & HE & E1 & E2 & E3).
     assert (HT : heff g g2 (N ++ Hd)) by (apply (heff_trans g g1 g2); [repeat split; assumption|exact HE]).
     destruct HT as (C2 & S2 & O2 & Q2).
